@@ -1,6 +1,6 @@
 """C07 - diagram operations compute the Boolean function they name."""
 from mirlib import facts
-from rules import kernel, shared
+from rules import deps, kernel, shared
 
 EXPLANATION = """
 Decided for every path and (thorough tier) every lib feature configuration: C07.T-conn (truth tables of the
@@ -9,7 +9,8 @@ ITE shortcut under its path condition), C07.R-ite (Shannon expansion step on the
 low child built from the false cofactors), C07.R-restrict (cofactor case table over the order type of
 top-variable vs restricted variable), S.F-memo (ite_cache / restrict_cache keyed by all parameters, hit returns
 the stored value, inserted value = returned value), S.W-store (append-only node table => previously issued handles
-keep their function). These are the induction steps; the induction itself is the textbook argument."""
+keep their function), and the function-relevant obligations of S.R-node (the node stored is BddNode{var,lo,hi} of the parameters, the
+returned handle is its index / the registered handle / lo when lo == hi). These are the induction steps; the induction itself is the textbook argument."""
 NOT_DECIDED = "The structural induction from one step to all operand diagrams is argued on paper, not mechanised."
 TECHNIQUE = "static analysis: finite-domain abstract interpretation of MIR (truth-table / order-type domains), memo-key dataflow, who-may-write census"
 
@@ -28,3 +29,4 @@ def check(ctx):
         n = kernel.F_memo(ctx, lib, which=("restrict", "ite"))
         ctx.floor("S.F-memo", "inserts (restrict_cache 3 + ite_cache 1)", n, 4)
         kernel.W_store(ctx, {"lib": lib})
+        deps.node_function(ctx, lib)
